@@ -332,7 +332,7 @@ Definition ws_session_read (c : ws_cfg) (s : ws_rstate) (avail : bytes) : ws_rst
   let s0 := if wsf_buf (wsc_fix c) then s
             else mkWs (w_up s) (w_flags s) (w_http s) (w_rdh s) (w_allhdr s) (w_mask s) (w_dsize s)
                       (map (fun _ => ws_undef) (w_data s)) (w_closed s) in
-  ws_session_loop (S (S (length (w_rdh s) + length avail))) c s0 avail.
+  ws_session_loop (S (S (length (w_http s) + length (w_rdh s) + length avail))) c s0 avail.
 
 (* level-triggered event loop *)
 Fixpoint ws_pump (fuel : nat) (c : ws_cfg) (s : ws_rstate) (avail : bytes) : ws_rstate * list ws_ev :=
